@@ -1468,7 +1468,9 @@ class EvolveAppTask(BaseEvolutionTask):
             mutation_types.add(type(mutation).__name__)
             mutation_lines.append('    %s,' % mutation)
 
-            if isinstance(mutation, AddField):
+            if getattr(mutation, 'field_type', None) is not None:
+                # This is an AddField, or a ChangeField switching to a new
+                # field type. The evolution will need to import the type.
                 field_module = mutation.field_type.__module__
 
                 if field_module.startswith('django.db.models'):
